@@ -1,16 +1,21 @@
-(* ArenaAny.v - alignment without any hypothesis on the client (C19, S1).
+(* ArenaAny.v - alignment in the MODEL without any hypothesis on the client.
 
    [reach_any] is closed under EVERY operation that returns - no [api_okb], no ghost:
    leaves in any order, realloc of arbitrary pointers with arbitrary sizes, client
    writes anywhere, use after arena_free (which the model answers with Crash, so it
    produces no successor).  The light invariant [al_inv] (frame sizes, bump pointers
    and scope marks are multiples of maxalign) survives all of that, and with it every
-   pointer any operation returns is maxalign-aligned: clause 1 of C19 for the
-   quantifier as stated.  (arena_realloc checks the pointer it is given, a non-LIFO
-   leave sets the bump pointer to an aligned mark or to 0.)
+   pointer any operation of the MODEL returns is maxalign-aligned.
 
-   What does NOT survive without the API is the distance to the frame header:
-   ArenaHoles.v / Properties_C19.v, C19_nonlifo_leave_hits_header. *)
+   THIS IS A FACT ABOUT THE MODEL, NOT ABOUT arena.c.  The model keeps the frame
+   metadata ([f_size], [f_len]) apart from [mem]; in C struct arena_frame lives at
+   offsets 0 .. c_hdr of the chunk.  After a leave of a non-innermost scope the "len = 0"
+   branch hands out the header (ArenaHoles.hits_header); a client write into that block
+   rewrites frame->ptr/size/len in C, and the next arena_malloc returns a wild,
+   misaligned pointer (replayed: corpus/C19/nonlifo_header_written.json, normal build;
+   the ASan build dies in arena_scope_enter_impl).  The model marks the place where it
+   stops describing the code ([ArenaDefs.cut_exposed], ending Unmodelled).  Clause 1 of
+   C19 is claimed under the guard only: ArenaThms.returned_aligned, live_aligned. *)
 From Robsd Require Import Base.Bytes Arena.ArenaDefs Arena.ArenaSpec Arena.ArenaProofs Arena.ArenaInv.
 Local Open Scope N_scope.
 
@@ -166,7 +171,7 @@ Proof.
       destruct (new <=? old).
       { destruct (c_sv c && negb (validate (st_a st) s)); [discriminate|].
         inversion Er; subst. split; [assumption|intros p Hp; inversion Hp; subst; assumption]. }
-      destruct (negb (validate (st_a st) s)); [discriminate|].
+      destruct (c_gv c && negb (validate (st_a st) s)); [discriminate|].
       destruct (a_frames (st_a st)) as [|fr rest] eqn:Efr; [discriminate|].
       inversion Hfr as [|? ? [Hl Hs] Hrest]; subst.
       destruct (Nat.eqb (fst p1) (length rest) && (align_off c (snd p1 + old) =? f_len fr)).
